@@ -433,6 +433,16 @@ pub fn generate(rng: &mut Rng, mode: Prop) -> Scenario {
             let m = gm.as_ref().unwrap();
             match rng.weighted(&weights) {
                 0 => gen_new(rng, &sc, &offsets),
+                1 if rng.chance(1, 600) => {
+                    // very rarely: compile, then load a program 256 / 65536 (or one more, or one less)
+                    // times in a row, then run the compiled code - a generation counter that wraps
+                    let engine = if rng.chance(1, 2) { Engine::Jit } else { Engine::Cl };
+                    let times = *rng.pick(&[256u32, 257, 255, 65536, 65536, 65537, 65535]);
+                    forced.push(Op::Exec { engine, pkt: gen_pkt(rng, &sc, m), mb: 0 });
+                    forced.push(gen_set_program(rng, &sc, m, &offsets, &past));
+                    forced.push(Op::Repeat { times });
+                    if engine == Engine::Jit { Op::JitCompile } else { Op::ClCompile }
+                }
                 1 => gen_set_program(rng, &sc, m, &offsets, &past),
                 2 => Op::SetVerifier { vid: rng.range(V_DEFAULT_EQ as u64, V_TAG_ODD as u64) as u8 },
                 3 => {
@@ -732,6 +742,6 @@ fn assume_correct(sc: &Scenario, gm: &mut Option<Model>, op: &Op, pending_veto: 
             }
             ok
         }
-        Op::Exec { .. } | Op::ArmVeto | Op::ArmAllocFail | Op::ArmMprotectFail => true,
+        Op::Exec { .. } | Op::ArmVeto | Op::ArmAllocFail | Op::ArmMprotectFail | Op::Repeat { .. } => true,
     }
 }
